@@ -10,8 +10,10 @@ package statesync
 
 import (
 	"fmt"
+	"runtime"
 	"sort"
 	"sync"
+	"sync/atomic"
 	"testing"
 	"time"
 
@@ -134,10 +136,12 @@ func (g *c14Gate) settle() bool {
 			w.inconclusive = fmt.Sprintf("fetchers did not settle: a chunk is neither queued nor requested (request lost with a cancelled fetcher, or no peer left) [captured requests %d, open %d]", np, len(open))
 			return false
 		}
-		if spins < 500 {
-			time.Sleep(20 * time.Microsecond)
+		if spins < 20 {
+			runtime.Gosched()
+		} else if spins < 200 {
+			time.Sleep(100 * time.Microsecond)
 		} else {
-			time.Sleep(2 * time.Millisecond)
+			time.Sleep(3 * time.Millisecond)
 		}
 	}
 }
@@ -167,11 +171,47 @@ func (g *c14Gate) respond(ev c14Net) {
 		g.w.inconclusive = "response to a request that is not outstanding"
 		return
 	}
-	g.w.deliver("good", r.peer, r.idx)
+	// The send returns first: the fetcher moves on to chunks.WaitFor(idx) and registers a waiter (observable);
+	// only then does the response arrive. The other order would leave a window in which the app's next verdict
+	// discards the chunk before the fetcher has looked for it, parking the fetcher for the whole request timeout.
+	w := g.w
+	w.s.mtx.RLock()
+	q := w.s.chunks
+	w.s.mtx.RUnlock()
+	before := -1
+	if q != nil {
+		q.Lock()
+		if q.snapshot != nil && q.snapshot.Height == r.h && q.snapshot.Format == r.f && q.chunkFiles[r.idx] == "" {
+			before = len(q.waiters[r.idx])
+		}
+		q.Unlock()
+	}
 	g.mtx.Lock()
 	r.answered = true
 	g.mtx.Unlock()
 	close(r.release)
+	if before >= 0 {
+		deadline := time.Now().Add(c14SettleTimeout)
+		for spins := 0; ; spins++ {
+			q.Lock()
+			n := len(q.waiters[r.idx])
+			q.Unlock()
+			if n > before {
+				break
+			}
+			if time.Now().After(deadline) {
+				w.inconclusive = "fetcher did not start waiting for the chunk it requested"
+				return
+			}
+			if spins < 500 {
+				runtime.Gosched()
+			} else {
+				time.Sleep(100 * time.Microsecond)
+			}
+		}
+	}
+	w.deliver("good", r.peer, r.idx)
+	g.settle()
 }
 
 // beforeReject: when the app is about to reject the last legitimate sender of the snapshot being restored, a
@@ -235,6 +275,67 @@ func c14RunFetch(tmp string, c c14Case) *c14Result {
 				w.inconclusive = "run does not terminate"
 			}
 			return w.result()
+		}
+	}
+}
+
+// c14ParExplorer: the depth-first enumeration of c14Explorer with subtrees handed to goroutines while slots are
+// free. Runs of this part spend their time in the 2 s idle poll of the fetcher under test, not on the CPU.
+type c14ParExplorer struct {
+	run     func(c c14Case) *c14Result
+	visit   func(c c14Case, res *c14Result) bool
+	mine    func(k int) bool
+	sem     chan struct{}
+	wg      sync.WaitGroup
+	kmtx    sync.Mutex
+	k       int
+	runs    int64
+	depth   int64
+	stopped int32
+}
+
+func (x *c14ParExplorer) rec(sw c14Sweep, prefix []int, devs int) {
+	if atomic.LoadInt32(&x.stopped) != 0 {
+		return
+	}
+	c := c14Case{Sweep: sw, Choices: append([]int{}, prefix...)}
+	res := x.run(c)
+	atomic.AddInt64(&x.runs, 1)
+	for {
+		d := atomic.LoadInt64(&x.depth)
+		if int64(len(res.Eff)) <= d || atomic.CompareAndSwapInt64(&x.depth, d, int64(len(res.Eff))) {
+			break
+		}
+	}
+	c.Choices = c14Trim(res.Eff)
+	if (devs > 0 || x.mine(0)) && !x.visit(c, res) { // the root run is executed by every shard, counted by shard 0
+		atomic.StoreInt32(&x.stopped, 1)
+		return
+	}
+	if res.Inconclusive != "" {
+		return
+	}
+	for i := len(prefix); i < len(res.Eff); i++ {
+		for v := 1; v < res.Arities[i]; v++ {
+			child := append(append([]int{}, res.Eff[:i]...), v)
+			if devs == 0 {
+				// first-level subtrees are distributed over the shards (deterministic numbering: the root run is sequential)
+				x.k++
+				if !x.mine(x.k) {
+					continue
+				}
+			}
+			select {
+			case x.sem <- struct{}{}:
+				x.wg.Add(1)
+				go func() {
+					defer x.wg.Done()
+					defer func() { <-x.sem }()
+					x.rec(sw, child, devs+1)
+				}()
+			default:
+				x.rec(sw, child, devs+1)
+			}
 		}
 	}
 }
@@ -340,55 +441,23 @@ func TestVerifC14Fetch(t *testing.T) {
 			{Scenario: "shared", L: 5, Kv: 2, Ka: 2},
 		}
 	}
-	par := 48
 	total := int64(0)
 	maxDepth := 0
-	k := 0
 	for si, sw := range sweeps {
-		// root run, then one goroutine per first-level subtree
-		root := run(c14Case{Sweep: sw})
-		total++
-		k++
-		if r.Mine(k) {
-			visit(c14Case{Sweep: sw}, root)
+		x := &c14ParExplorer{run: run, visit: visit, mine: r.Mine, sem: make(chan struct{}, 40)}
+		x.rec(sw, nil, 0)
+		x.wg.Wait()
+		total += atomic.LoadInt64(&x.runs)
+		if d := int(atomic.LoadInt64(&x.depth)); d > maxDepth {
+			maxDepth = d
 		}
-		if root.Inconclusive != "" {
-			continue
-		}
-		sem := make(chan struct{}, par)
-		var wg sync.WaitGroup
-		var cmtx sync.Mutex
-		for i := 0; i < len(root.Eff); i++ {
-			for v := 1; v < root.Arities[i]; v++ {
-				k++
-				if !r.Mine(k) {
-					continue
-				}
-				child := append(append([]int{}, root.Eff[:i]...), v)
-				wg.Add(1)
-				sem <- struct{}{}
-				go func(child []int) {
-					defer wg.Done()
-					defer func() { <-sem }()
-					x := &c14Explorer{run: run, visit: visit, mine: func(int) bool { return true }, cut: -1}
-					x.rec(sw, child, 1)
-					cmtx.Lock()
-					total += x.Runs
-					if x.MaxDepth > maxDepth {
-						maxDepth = x.MaxDepth
-					}
-					cmtx.Unlock()
-				}(child)
-			}
-		}
-		wg.Wait()
 		mtx.Lock()
 		st := stop
 		mtx.Unlock()
 		if st {
 			break
 		}
-		r.Set(fmt.Sprintf("sweep_%02d_%s_L%d_Kv%d_Ka%d", si+1, sw.Scenario, sw.L, sw.Kv, sw.Ka), total)
+		r.Set(fmt.Sprintf("sweep_%02d_%s_L%d_Kv%d_Ka%d", si+1, sw.Scenario, sw.L, sw.Kv, sw.Ka), atomic.LoadInt64(&x.runs))
 	}
 	r.MaxDepth = maxDepth
 	r.Set("runs_on_impl", total)
